@@ -224,6 +224,10 @@ func ReadBufferBound() {
 	blocked := sym.RunWithEnv(func() { protocol.VerifReadLoop(p) }, env)
 	sym.Reach("ran")
 	sym.Assert(!blocked && protocol.VerifErrorCount(p) == 1 && protocol.VerifStopped(p), "an incomplete message that grows past the read-buffer bound ends the protocol with an error")
-	sym.Assert(fedBytes > protocol.VerifMaxReadBufferSize && fedBytes <= protocol.VerifMaxReadBufferSize+len(filler), "the error comes with the first segment that takes the buffer past the bound")
+	sym.Assert(fedBytes > protocol.VerifMaxReadBufferSize, "no error before the buffer passes the bound")
+	if sym.Symbolic() {
+		// (natively the peer may have queued further segments before the loop got to the error)
+		sym.Assert(fedBytes <= protocol.VerifMaxReadBufferSize+len(filler), "the error comes with the first segment that takes the buffer past the bound")
+	}
 	sym.Assert(handled == 0, "nothing is delivered")
 }
